@@ -15,14 +15,14 @@ import itertools
 import os
 import random
 
-from ..core import B, outcome, REPO
+from ..core import B, outcome, REPO, spec_wordlist
 
 
 def run(ctx):
     from buidl import shamir as SH, mnemonic as MN
     rng = random.Random(ctx.seed)
     q = ctx.quick
-    words = open(os.path.join(REPO, "buidl", "slip39_words.txt")).read().split()
+    words = spec_wordlist(ctx, "slip39", SH.SLIP39)
     widx = {w: i for i, w in enumerate(words)}
     ctx.rule = ("cases = recorded SLIP39 calls decided by TLC; distinct = (k, n, secret size, exponent), subset class x outcome, corruption weight, "
                 "codec field boundary classes")
